@@ -71,6 +71,9 @@ func randAlnum(rng *rand.Rand, n int) string {
 	b := make([]byte, n)
 	for i := range b {
 		b[i] = alnum[rng.Intn(len(alnum))]
+		if rng.Intn(12) == 0 {
+			b[i] = "<>&-_ ."[rng.Intn(7)] // characters the JSON encoder renders specially, and a few it does not
+		}
 	}
 	return string(b)
 }
